@@ -41,6 +41,8 @@ MUTANTS = [
     ("marker-off-by-one", "functions.cpp", "i == env->curr_op_seq ? \" -> \"", "i == env->curr_op_seq + 1 ? \" -> \"", ["C12"]),
     ("header-not-counted", "btcdeb.cpp", "        script_headers.push_back(\"<<< scriptPubKey >>>\");\n        count++;\n", "        script_headers.push_back(\"<<< scriptPubKey >>>\");\n", ["C12", "C15"]),
     ("header-line-dropped", "btcdeb.cpp", "        script_headers.push_back(\"<<< scriptPubKey >>>\");\n        count++;\n", "        script_headers.push_back(\"\");\n", ["C12"]),
+    ("pane-skips-header", "functions.cpp", "                l.push_back(headers[siter]);\n            }\n            it = script->begin();", "            }\n            it = script->begin();", ["C12"]),
+    ("pane-drops-last-op", "functions.cpp", "            auto s = std::string(buf);\n            if (s.length() > lmax) lmax = s.length();\n            l.push_back(s);", "            auto s = std::string(buf);\n            if (s.length() > lmax) lmax = s.length();\n            if (it != script->end() || siter + 1 < scripts.size() || l.empty()) l.push_back(s);", ["C12"]),
     ("step-echo-previous", "functions.cpp", "    print_dualstack();\n    if (env->curr_op_seq < count) {\n        printf(\"%s\\n\", script_lines[env->curr_op_seq]);\n    }\n    return 0;\n}\n\nint fn_rewind",
      "    print_dualstack();\n    if (env->curr_op_seq < count && env->curr_op_seq > 0) {\n        printf(\"%s\\n\", script_lines[env->curr_op_seq - 1]);\n    }\n    return 0;\n}\n\nint fn_rewind", ["C12"]),
     ("listing-uppercase-name", "btcdeb.cpp", "snprintf(pbuf, 1024 - (pbuf - buf), \"%s\", GetOpName(opcode).c_str());", "snprintf(pbuf, 1024 - (pbuf - buf), \"%s\", opcode == OP_NIP ? \"OP_DROP\" : GetOpName(opcode).c_str());", ["C12"]),
